@@ -126,7 +126,7 @@ KEEP = {
     "admin": ("ev", "op", "name", "w", "s", "status", "pre", "items"),
     "snap": ("ev", "total", "ok", "failed", "limited", "backends", "health", "list"),
     "held": ("ev", "id"), "stuck": ("ev", "id", "at"), "drift": ("ev",), "skip": ("ev",),
-    "setprobe": ("ev",), "setmode": ("ev",), "stopped": ("ev",),
+    "setprobe": ("ev", "b", "r"), "setmode": ("ev",), "stopped": ("ev",),
 }
 
 
@@ -208,6 +208,10 @@ def conformance(chk, sd, name, c):
     MODEL-DRIFT and counted, never a verdict."""
     proj = os.path.join(sd, name + ".proj.ndjson")
     text = cfg_text(c, gen=False).split("INIT MCInit")[0]
+    # MaxHold only bounds the generator's state space; the code has no such limit (and under the hash strategies
+    # the real hash may put a held exchange on a backend the abstract hash would not have chosen)
+    import re
+    text = re.sub(r"MaxHold = \d+", "MaxHold = 99", text)
     text += "INIT TraceInit\nNEXT TraceNext\nINVARIANT Report\nPOSTCONDITION Consumed\nCHECK_DEADLOCK FALSE\n"
     wd = vlib.scratch("tlc")
     with open(os.path.join(wd, "trace.cfg"), "w") as fh:
